@@ -19,7 +19,7 @@ LEVEL = "exploration"
 RULE = ("every built-in data command x 1..5 inputs x rank 1-3 shapes x int/float dtypes x mask styles (nomask, all-false, random, "
         "single cell, all-but-one, all) x 3 payloads under the mask; CSV cases vary the number stored in missing cells; distinct by "
         "(command, n, rank, dtypes, mask classes, params)")
-REQUIRED_COUNTERS = ["mask_superset_checks", "mask_exact_checks", "payload_variation_checks", "masked_input_cells", "csv_payload_checks", "follow_up_mask_checks", "netcdf_fill_mask_checks", "large_rasters_checked", "csv_rereads_with_other_marker", "large_files_read", "later_same_family_checks", "printed_fields_compared", "netcdf_write_read_back_checks"]
+REQUIRED_COUNTERS = ["netcdf_marker_variation_checks", "mask_superset_checks", "mask_exact_checks", "payload_variation_checks", "masked_input_cells", "csv_payload_checks", "follow_up_mask_checks", "netcdf_fill_mask_checks", "large_rasters_checked", "csv_rereads_with_other_marker", "large_files_read", "later_same_family_checks", "printed_fields_compared", "netcdf_write_read_back_checks"]
 ASSUMPTIONS = ["what is stored under result masks and fill values are not judged", "NaN/inf and zero-length arrays are never generated",
                "cases where the reference is undefined (constant arrays, equal thresholds, zero weight sums) only get check (a) and (c)"]
 
@@ -52,6 +52,10 @@ def cases(ctx):
                 if not s["mask"][i_] and isinstance(s["data"][i_], (int, float)) and abs(s["data"][i_]) > 1e17:
                     s["data"][i_] = 0.5 if cmd in arr.FUZZY_INPUT else (3 if s["dtype"].startswith(("int", "uint")) else 3.5)
         c["kind"] = "array"
+        if rng.random() < 0.15:
+            for s_ in c["inputs"]:
+                if s_.get("mask") and not s_.get("layout") and rng.random() < 0.7:
+                    s_["hard"] = True          # a field whose missing cells are protected by a hard mask
         c["payloads"] = list(rng.choice(PAYLOAD_SETS))
         if len(c["inputs"]) >= 2 and rng.random() < 0.12:
             # the first listed input is a plain array (nothing missing): the missing cells of the others still count
@@ -190,6 +194,36 @@ def run_ncread(ctx, case):
                     ctx.fail("ncread:derived-result-written-and-read-back:%s" % ("valid-cell-missing" if gm[i] else "missing-cell-present"),
                              {"cell": i, "value_there": float(numpy.ma.getdata(out.value)[i]), "source_marker": mv})
                     return
+    if out.ok and isinstance(out.value, numpy.ndarray) and marking == "_FillValue" and any((x == mv) and not f for x, f in zip(case["values"], case["fill"])):
+        # the same table with another number in the cells the MissingValue argument declares missing (54321 instead of the
+        # marker used above), read with that number as MissingValue: everything computed from the read is the same
+        ctx.count("netcdf_marker_variation_checks")
+        path2 = os.path.join(d, "in2.nc")
+        with Dataset(path2, "w") as ds:
+            ds.createDimension("x", n)
+            xv = ds.createVariable("x", "f8", ("x",))
+            xv[:] = numpy.arange(n) * 1.0
+            v = ds.createVariable("var", "f8", ("x",), fill_value=-1e30)
+            v[:] = numpy.ma.array(numpy.array([54321.0 if x == mv else x for x in case["values"]], dtype="f8"), mask=numpy.array(case["fill"]))
+        prog2 = arr.new_program(arr.NC_LIBS, working_dir=d)
+        out2 = arr.invoke(prog2, "EEMSRead", "X", {"InFileName": path2, "InFieldName": "var", "MissingValue": 54321})
+        prev2 = "X"
+        for j, cmd in enumerate(case["chain"]):
+            if not out2.ok:
+                break
+            p = dict(CHAIN_PARAMS[cmd])
+            if arr.INPUT_STYLE[cmd] == "one":
+                p["InFieldName"] = prev2
+            else:
+                p["InFieldNames"] = [prev2, prev2]
+            out2 = arr.invoke(prog2, cmd, "S%d" % j, p)
+            prev2 = "S%d" % j
+        if not out2.ok:
+            ctx.fail("ncread:%s:outcome-depends-on-the-missing-marker" % "+".join(case["chain"]), {"error": repr(out2.exc)[:200], "marker": mv})
+            return
+        if _vis_digest(out2.value) != _vis_digest(out.value):
+            ctx.fail("ncread:%s:result-depends-on-the-number-used-as-missing-marker" % "+".join(case["chain"]), {"marker": mv, "other_marker": 54321, "with_marker": arr.describe(out.value, 8), "with_other": arr.describe(out2.value, 8)})
+            return
     xin = prog.commands["X"]._result if prog.commands["X"].is_finished else None
     if isinstance(xin, numpy.ndarray):
         got = numpy.ma.getmaskarray(xin).tolist()
@@ -408,6 +442,15 @@ def run_case(ctx, case):
                                                          "which": [i for i, d in enumerate(digests) if d != digests[0]]})
 
 
+def _spell(marker, k, integer):
+    """The marker as other tools write the same number into a table of decimals (-9999.0, -9999.00, -9.999e3, ...)."""
+    if integer or float(marker) != int(marker):
+        return repr(marker)
+    m = int(marker)
+    forms = [repr(marker), "%d.0" % m, "%d.00" % m, " %d" % m, "%.10e" % m if m else "0e0", "%d." % m, "+%d" % m if m > 0 else "%d.000" % m]
+    return forms[k % len(forms)]
+
+
 def _vis_digest(res):
     """mask + bits of the unmasked values (arr.digest without type/dtype), so payload-independent by construction."""
     import hashlib
@@ -444,7 +487,7 @@ def run_csv(ctx, case):
         with open(path, "w") as f:
             f.write("X,Y\n")
             for v, m, o in zip(case["col"], case["mask"], case["other"]):
-                f.write("%s,%s\n" % (repr(marker) if m else repr(v), repr(o)))
+                f.write("%s,%s\n" % (_spell(marker, len(repr(v)) + len(repr(o)), case["integer"]) if m else repr(v), repr(o)))
         prog = arr.new_program(working_dir=d)
         args = {"InFileName": path, "InFieldName": "X", "MissingVal": marker, "DataType": "Integer" if case["integer"] else "Float"}
         out = arr.invoke(prog, "EEMSRead", "X", args)
